@@ -171,7 +171,9 @@ Definition drop_and_send_in_reply_to (s : sess) (t : bytes) (body : list (Z * by
 
 Definition drop_and_reset (s : sess) : sess := store_reset (drop_queued s).
 
-Definition enqueue_bytes_and_send (s : sess) (m : omsg) : sess := send_queued (enqueue s m).
+(* EnqueueBytesAndSend: outside a logon what is queued is dropped first, as the run loop does (fix b6d3b39) *)
+Definition enqueue_bytes_and_send (s : sess) (m : omsg) : sess :=
+  send_queued (enqueue (if is_logged_on (s_st s) then s else drop_queued s) m).
 
 Definition should_send_reset (s : sess) : bool :=
   let c := s_cfg s in
